@@ -517,6 +517,21 @@ func c12Check(r *vcore.Run) vcore.Coverage {
 				}
 			}
 			afters := append([]string{"", "a0", "zz"}, repos...)
+			if len(repos) > 0 {
+				// a backend that repeats itself (a merged or paged upstream listing may): every occurrence of
+				// a name goes through the policy, however often and wherever it occurs
+				var twice, thrice []string
+				for _, n := range repos {
+					twice = append(twice, n, n)
+					thrice = append(thrice, n, n, n)
+				}
+				for _, after := range afters {
+					for _, w := range []string{"AccessChecker", "Select"} {
+						lists = append(lists, c12ListCase{Wrapper: w, Repos: twice, Allowed: allowed, After: after, ErrAfter: -1},
+							c12ListCase{Wrapper: w, Repos: thrice, Allowed: allowed, After: after, ErrAfter: -1})
+					}
+				}
+			}
 			for _, after := range afters {
 				for stop := 0; stop <= len(repos)+1; stop++ {
 					for ea := -1; ea <= len(repos); ea++ {
